@@ -13,7 +13,7 @@ from hypothesis import strategies as st
 
 CELL_POOL = ['', 'a', 'b', 'ab', 'a b', 'B', '10', '9', '100', 'x,y', ' a', 'a!', 'k', 'zz', 'A;B', 'q"r', "it's", 'é', 'a%', '_']
 JS_SAFE_CELL_POOL = ['', 'a', 'b', 'ab', 'a b', 'B', '10', '9', '100', 'x,y', ' a', 'a!', 'k', 'zz', 'A;B', 'q"r', "it's", 'a%', '_']
-NAME_POOL = ['k', 'v', 'name', 'x1', '_id', 'Col', 'zz', 'w', 'val', 'key_2', 'Total', 'n']
+NAME_POOL = ['k', 'v', 'name', 'x1', '_id', 'Col', 'zz', 'w', 'val', 'key_2', 'Total', 'n', 'a_1', 'k2', 'v10', 'name2']
 LIT_POOL = ['', 'a', 'b', 'x', 'a b', ',', ';', 'zz', '10', '-', 'A', '%', 'a%', '_', '(', ')', '[x]', '#', 'é']
 ALIAS_POOL = ['x', 'y', 'res', 'Total', 'c_1', 'zed', 'alias9']
 
@@ -165,6 +165,9 @@ def e_int(ctx, depth=0):
         return mk('(NR % 2 * 2305843009213693951)', None, 'int')
     k = d(st.integers(0, 8 if depth < 2 else 3))
     if k == 0:
+        if ctx.a_names is None and d(st.integers(0, 3)) == 0:
+            sp = d(st.sampled_from(['aNR', 'a.NR']))
+            return {'py': sp, 'js': sp, 'name': ({'id': 'aNR'} if sp == 'aNR' else {'id': 'NR'}), 'ty': 'int'}
         return {'py': 'NR', 'js': 'NR', 'name': {'id': 'NR'}, 'ty': 'int'}
     if k == 1:
         return {'py': 'NF', 'js': 'NF', 'name': {'id': 'NF'}, 'ty': 'int'}
@@ -336,6 +339,9 @@ def st_names(draw, width):
 def st_table(draw, max_rows=6, max_width=4, ragged=None, pool=None, none_cells=True, min_rows=0, min_width=0, first_full=False):
     pool = pool or CELL_POOL
     width = draw(st.integers(min_width, max_width))
+    if max_width >= 3 and draw(st.integers(0, 11)) == 0:
+        width = draw(st.integers(10, 12))      # a1 vs a10 / a11 / a12 must be told apart
+        max_width = width
     nrows = draw(st.integers(min_rows, max_rows))
     if ragged is None:
         ragged = draw(st.booleans())
@@ -347,7 +353,10 @@ def st_table(draw, max_rows=6, max_width=4, ragged=None, pool=None, none_cells=T
         w = width
         if ragged and not (first_full and i == 0):
             w = draw(st.integers(min_width, max_width))
-        rows.append(draw(st.lists(cell, min_size=w, max_size=w)))
+        if width >= 10:
+            rows.append([draw(cell) if j < 2 else 'c%d' % (j + 1) for j in range(w)])   # cells that name their own column
+        else:
+            rows.append(draw(st.lists(cell, min_size=w, max_size=w)))
     return rows, width
 
 
